@@ -1251,3 +1251,33 @@ def vals_in(eng, table, lo, hi):
     if ver.vsort != T.Int:
         raise Unsupported("table key -> integer expected")
     return SV(FO.valsin_of(eng, ver, zint(lo), zint(hi)), "bool")
+
+
+@spec
+def maxkey(eng, d, default=-1):
+    """max(d, default=default) of an int-keyed dict (the same theory term the code's max() evaluates to)"""
+    return SV(FO.maxkey_of(eng, eng.store_of(d), default if isinstance(default, int) else zint(default)), "int")
+
+
+@spec
+def forall_mapped(eng, rmap, f):
+    """forall i in the keys of the int-keyed dict rmap. f(i)"""
+    from . import solth as SO
+    ver = eng.store_of(rmap)
+    i = SO._iq(eng)
+    body = eng.call(f, [SV(i, "int")], {})
+    t = eng.tobool(body)
+    t = z3.BoolVal(t) if isinstance(t, bool) else t
+    return SV(z3.ForAll([i], z3.Implies(z3.Select(ver.dom, i), t)), "bool")
+
+
+@spec
+def only_images_of(eng, d, rmap):
+    """every key of the label-keyed dict d is a value of rmap"""
+    from . import solth as SO
+    dv, rv = eng.store_of(d), eng.store_of(rmap)
+    eng.nfresh += 1
+    l = z3.Const("lq!%d" % eng.nfresh, T.Label)
+    i = SO._iq(eng)
+    return SV(z3.ForAll([l], z3.Implies(z3.Select(dv.dom, l),
+                                        z3.Exists([i], z3.And(z3.Select(rv.dom, i), z3.Select(rv.val, i) == l)))), "bool")
